@@ -72,13 +72,14 @@ def env_sx(obs):
 
 def world_sx(obs):
     o = obs.get("oracle") or {"schema_files": [], "schema_build": "ok", "schema_errors": [], "plugin_err": None,
-                              "query_files": [], "op_errors": [], "ops": [], "fragments": False}
+                              "query_files": [], "op_errors": [], "ops": [], "fragments": False, "query_type": False,
+                              "mutation_type": False}
     sb = Sym("ok") if o["schema_build"] == "ok" else [Sym("raises"), o["schema_build"][1], o["schema_build"][2]]
     pe = Sym("none") if o["plugin_err"] is None else [Sym("some"), o["plugin_err"]]
     ops = [[Sym("none") if n is None else [Sym("some"), n], Sym("none")] for n in o["ops"]]
     return [[[f, ok] for f, ok in o["schema_files"]], sb, Sym("none"), list(o["schema_errors"]), pe,
             [[f, ok] for f, ok in o["query_files"]], [[r, m] for r, m in o["op_errors"]], ops,
-            bool(o.get("fragments"))]
+            [bool(o.get("fragments")), bool(o.get("query_type")), bool(o.get("mutation_type"))]]
 
 
 def cfgfile_sx(case, obs):
@@ -169,6 +170,11 @@ def k2(run):
              (True, False): (K.DEFAULT_ASYNC_BASE_CLIENT_PATH, K.DEFAULT_ASYNC_BASE_CLIENT_NAME),
              (False, True): (K.DEFAULT_BASE_CLIENT_OPEN_TELEMETRY_PATH, K.DEFAULT_BASE_CLIENT_OPEN_TELEMETRY_NAME),
              (False, False): (K.DEFAULT_BASE_CLIENT_PATH, K.DEFAULT_BASE_CLIENT_NAME)}
+    from ariadne_codegen.graphql_schema_generators import constants as GK
+
+    rv = model.call(ENGINE, [Sym("reserved")])
+    if sorted(rv) != sorted(GK.RESERVED_VARIABLE_NAMES):
+        run.broken("K2 reserved variable names", f"model {sorted(rv)} vs code {sorted(GK.RESERVED_VARIABLE_NAMES)}")
     run.extra["default_clients"] = {str(k): [v[0].name, v[1]] for k, v in names.items()}
     # identifiers / keywords / suffixes: exhaustive over a small alphabet + specials
     from pathlib import Path
